@@ -763,8 +763,12 @@ def rule_intarg(c: Ctx) -> RuleResult:
                 continue
             arg = call.args[0]
             rd = rd or Reaching(c.cfg(f))
-            how = _int_source(c, f, arg, call, rd, regexes)
             key = f"{f.short}|int|{alpha(f, call)[:60]}"
+            from .partial_rules import _in_try
+            if _in_try(f, call, {"ValueError"}):
+                r.add(key, c.where(f, call), f.short, U(call)[:70], "discharged", "inside a try whose handler catches ValueError")
+                continue
+            how = _int_source(c, f, arg, call, rd, regexes)
             if how.startswith("!"):
                 r.add(key, c.where(f, call), f.short, U(call)[:70], "violation",
                       f"int() of {how[1:]}: a non-digit reaching int() raises ValueError out of parse()")
